@@ -1334,13 +1334,28 @@ func S17(rc *RC) {
 					}
 				}
 			}
+			if n.Kind == "range" {
+				// `for d, extent := range other`: every dimension from 0 by construction
+				if i := strings.LastIndex(n.Head, " as "); i > 0 {
+					v := n.Head[i+4:]
+					body := ir.Render(n.Kids)
+					if regexp.MustCompile(`\[`+regexp.QuoteMeta(v)+`\] != [%$][\w@\[\]]*\[`+regexp.QuoteMeta(v)+`\]`).MatchString(body) {
+						found++
+						for _, k := range flatten(n.Kids) {
+							if k.Kind == "if" && strings.Contains(k.Head, v) && !strings.Contains(k.Head, "!=") && !strings.Contains(k.Head, "$axis") {
+								bad = append(bad, "a dimension other than the axis is exempted: "+k.Head)
+							}
+						}
+					}
+				}
+			}
 			walk(n.Kids, inits)
 			walk(n.Else, inits)
 		}
 	}
 	walk(tree, map[string]string{})
 	if found == 0 {
-		rc.S.Viol("S17", "tensor.(Shape).Concat#compare", pos, "no loop comparing the operands' dimensions found").Sig = "no comparison"
+		rc.S.Undec("S17", "tensor.(Shape).Concat#compare", pos, "no loop comparing the operands' dimensions is recognised (neither a counting loop nor a range over a shape with `a[d] != b[d]` in its body)")
 		return
 	}
 	if len(bad) > 0 {
